@@ -25,7 +25,7 @@ JOBS = {
 
 BIP_INV = ["KeepsPrior", "AcyclicRes", "CmpBindsNothing", "CmpLaws", "AppendLen", "FilterPartition", "Emit"]
 BIP_SUBST = {"AtomCodes": "AtomCodesDef", "FmtPieces": "FmtPiecesDef"}
-for _s in ("cmp", "append", "count", "filter", "functor"):
+for _s in ("cmp", "append", "count", "filter", "functor", "print"):
     JOBS["bip-" + _s] = dict(module="MC_Builtins", constants={"Slice": _s}, subst=BIP_SUBST, invariants=BIP_INV,
                              timeout={"quick": 600, "thorough": 1800})
 
@@ -82,8 +82,9 @@ PROPS = {
     "C03": dict(jobs=["solver-not", "trace-solver"], level="model_checking",
                 rule="not(...) around calls, conjunctions, disjunctions, unifications, comparisons, printing goals and another not, alone / after / before generators / in a disjunction, x queries with unbound and ground arguments",
                 assumptions=[]),
-    "C04": dict(jobs=["solver-print", "solver-cut", "solver-not", "trace-solver"], level="model_checking",
-                rule="print / print_list / nl placed left and right of multi-answer, failing and negated goals; real stdout between successive answers is compared with the reference search's text",
+    "C04": dict(jobs=["solver-print", "bip-print", "solver-cut", "solver-not", "trace-solver"], level="model_checking",
+                rule="print / print_list / nl placed left and right of multi-answer, failing and negated goals; real stdout between successive answers is compared with the reference search's text; "
+                     "plus single print / print_list / nl calls over 8 format strings (0-3 markers at every position) x argument tuples (atoms, integers, bound variables, chains) and concatenation without markers",
                 assumptions=["only atoms and small integers are printed (given literally or bound); format strings with k markers have k arguments or none"]),
     "C05": dict(jobs=["solver-not", "solver-cut", "solver-andor", "solver-print", "solver-alias", "solver-lists", "trace-solver"], level="model_checking",
                 rule="every program/query of the solver slices, asked 2 more times after the first 'no more' (answers and output)",
